@@ -369,6 +369,73 @@ pub fn sqlite_raw_extra(dir: &std::path::Path, clients: &[Uuid], dumps: &mut [Cs
     }
 }
 
+/// Payload generator for the byte classes of C06.
+pub fn gen_payload(class: &str, size: usize, seed: u64) -> Vec<u8> {
+    let mut x = seed.wrapping_mul(0x9E3779B97F4A7C15) ^ 0xD1B54A32D192ED03 ^ (size as u64);
+    let mut next = || {
+        x ^= x << 13;
+        x ^= x >> 7;
+        x ^= x << 17;
+        x
+    };
+    let mut v: Vec<u8> = Vec::with_capacity(size);
+    match class {
+        "zeros" => v.resize(size, 0),
+        "ff" => v.resize(size, 0xff),
+        "digits" => {
+            // text that looks numeric
+            let pats: [&[u8]; 6] = [b"123", b"1e5", b"0x10", b"-0", b"007", b"3.14"];
+            let mut i = (seed % 6) as usize;
+            while v.len() < size {
+                v.extend_from_slice(pats[i % 6]);
+                i += 1;
+            }
+        }
+        "utf8" => {
+            let pats = ["h\u{e9}llo ", "\u{4e16}\u{754c} ", "\u{1F600}", "na\u{ef}ve ", "{\"a\":1} "];
+            let mut i = (seed % 5) as usize;
+            while v.len() < size {
+                v.extend_from_slice(pats[i % 5].as_bytes());
+                i += 1;
+            }
+        }
+        "badutf8" => {
+            let pats: [&[u8]; 5] = [&[0xc3, 0x28], &[0xff, 0xfe], &[0xe2, 0x82], &[0xf0, 0x9f, 0x98], &[0x80]];
+            let mut i = (seed % 5) as usize;
+            while v.len() < size {
+                v.extend_from_slice(pats[i % 5]);
+                v.push(b'a' + (next() % 26) as u8);
+                i += 1;
+            }
+        }
+        "nuls" => {
+            while v.len() < size {
+                let r = next();
+                v.push(if r % 3 == 0 { 0 } else { (r >> 8) as u8 });
+            }
+        }
+        _ => {
+            while v.len() < size {
+                v.extend_from_slice(&next().to_le_bytes());
+            }
+        }
+    }
+    v.truncate(size);
+    // make the tail depend on the seed so that two uploads of one class and size differ
+    if size >= 12 && class != "zeros" && class != "ff" {
+        let t = seed.to_le_bytes();
+        let n = v.len();
+        for (i, b) in t.iter().enumerate() {
+            v[n - 8 + i] = match class {
+                "digits" => b'0' + (b % 10),
+                "utf8" => b'a' + (b % 26),
+                _ => *b,
+            };
+        }
+    }
+    v
+}
+
 /// Uniform response record of the trace.
 #[derive(Clone, Debug, Default)]
 pub struct RespRec {
